@@ -1,0 +1,14 @@
+//go:build verif
+
+// Contracts for the gowp verifier (/verif). Comment-only file: compiled only with -tags verif and
+// contributes no code either way.
+
+package chainfee
+
+//@ func (s SatPerKWeight) FeeForWeight
+//@   props C01
+//@   requires 0 <= s && s <= 1<<40 && wu <= 1<<22
+//@   ensures result == fdiv(s * wu, 1000)
+//@   nowrap
+//@   modifies nothing
+//@   replay scalar
